@@ -414,7 +414,7 @@ struct gslot {
 #define GCLASSES 24
 static struct gslot *g_free[GCLASSES], *g_used;
 static char g_damage[256];
-#define CANARY(i) ((uint8_t)(0xC5 ^ ((i) * 29)))
+#define CANARY(i) ((uint8_t)((0xC5 ^ ((i) * 29)) | 1)) /* never zero: neighbours of a zero-detect region are non-zero */
 
 static int g_class(size_t pages, size_t *cpages)
 {
